@@ -37,7 +37,7 @@ $(MR)/%.ml: coq/Extract/%.v $(VSRC)
 $(MR)/%: $(MR)/%.ml modelrun/driver.ml.in
 	m=$*; M=$$(echo $${m:0:1} | tr a-z A-Z)$${m:1}; \
 	sed -e "s/MODEL/$$M/g" -e 's/ENTRY/run/g' modelrun/driver.ml.in > $(MR)/main_$*.ml && \
-	cd $(MR) && ocamlfind ocamlopt -w -a $*.mli $*.ml main_$*.ml -o $*
+	cd $(MR) && ocamlfind ocamlopt -package zarith -linkpkg -w -a $*.mli $*.ml main_$*.ml -o $*
 .PRECIOUS: $(MR)/%.ml
 
 modelrun: $(addprefix $(MR)/,$(MODELS))
